@@ -94,8 +94,8 @@ def c17():
 @prop("C18")
 def c18():
     if _q():
-        plans = [dict(universe=u, variant="faults", depth=2, emitidx=False) for u in U] + \
-                [dict(universe=u, variant="faults", depth=6, simulate=25, emitidx=False, fan_keep=0.1) for u in U]
+        plans = [dict(universe="U1", variant="faults", depth=2, emitidx=False)] + \
+                [dict(universe=u, variant="faults", depth=5, simulate=12, emitidx=False, fan_keep=0.15) for u in U]
         modes = ("compiled",)
     else:
         plans = [dict(universe=u, variant="faults", depth=3, emitidx=False) for u in U] + \
@@ -107,6 +107,12 @@ def c18():
                   "(definitions as after the definitional phase, exactly the first k-1 tasks applied), and the walk continues (repeat, further faults). "
                   "non-trivial = transition whose triggered task set is non-empty",
                   plans, tags=["C18"], modes=modes, hashseeds=(0,), queries=False)
+
+
+@prop("C07")
+def c07():
+    from . import table_engine
+    return table_engine.c07()
 
 
 def replay(path):
